@@ -51,6 +51,45 @@ def _is_new_axis(e: ast.AST) -> bool:
         (isinstance(e, ast.Slice) and e.lower is None and e.upper is None and e.step is None)
 
 
+def _inline_properties(cls, e: ast.AST, depth: int = 2) -> ast.AST:
+    """`self.P` replaced by the returned expression of P when P is a (cached) property of `cls` whose body is one return of an
+    arithmetic expression over self attributes (a named factor such as i·(R + τj − τi) kept in a property)."""
+    import copy
+    props = {m.name: m for m in cls.methods.values() if any(d.endswith("cached_property") or d == "property" for d in m.decorators)}
+
+    class T(ast.NodeTransformer):
+        def visit_Attribute(self, n):
+            self.generic_visit(n)
+            if isinstance(n.value, ast.Name) and n.value.id == "self" and n.attr in props and isinstance(n.ctx, ast.Load):
+                body = [s_ for s_ in props[n.attr].node.body if not (isinstance(s_, ast.Expr) and isinstance(s_.value, ast.Constant))]
+                if len(body) == 1 and isinstance(body[0], ast.Return) and isinstance(body[0].value, ast.BinOp) and isinstance(body[0].value.op, ast.Mult) \
+                        and any(isinstance(x, ast.Constant) and isinstance(x.value, complex) for x in (body[0].value.left, body[0].value.right)):
+                    return ast.copy_location(copy.deepcopy(body[0].value), n)
+            return n
+    for _ in range(depth):
+        e = T().visit(copy.deepcopy(e))
+    return e
+
+
+def _pull_scalars(e: ast.AST) -> ast.AST:
+    """(c · A).reshape(s) → c · A.reshape(s) for a numeric constant c (reshaping commutes with scaling)"""
+    import copy
+
+    class T(ast.NodeTransformer):
+        def visit_Call(self, n):
+            self.generic_visit(n)
+            if isinstance(n.func, ast.Attribute) and n.func.attr == "reshape" and isinstance(n.func.value, ast.BinOp) and isinstance(n.func.value.op, ast.Mult):
+                b = n.func.value
+                for c_, a_ in ((b.left, b.right), (b.right, b.left)):
+                    if isinstance(c_, ast.Constant) and isinstance(c_.value, (int, float, complex)):
+                        inner = ast.Call(func=ast.Attribute(value=a_, attr="reshape", ctx=ast.Load()), args=n.args, keywords=n.keywords)
+                        return ast.copy_location(ast.BinOp(left=c_, op=ast.Mult(), right=inner), n)
+            return n
+    out = T().visit(copy.deepcopy(e))
+    ast.fix_missing_locations(out)
+    return out
+
+
 def _broadcast_view_of(e: ast.AST, base: str) -> bool:
     """e is `base` with only size-1 axes inserted: base.reshape(…), np.expand_dims(base, …), base[..., None], base[:, None, None]
     (the values and their order are those of base; which positions the new axes take is not decided here)."""
@@ -289,14 +328,38 @@ def run(ctx) -> None:
     dxp = dv.params[1]
     rets = [s_ for s_ in stmts(dv.node) if isinstance(s_, ast.Return) and s_.value is not None]
     okd = False
+    rres = None
     if len(rets) == 1:
         DS = Sem(idx, dv)
-        rres = DS.resolve(rets[0].value, DS.cfg.node(rets[0]))
+        rres = _pull_scalars(_inline_properties(rvc, DS.resolve(rets[0].value, DS.cfg.node(rets[0]))))
         sg, fs = product_factors(rres)
         okd = imag_unit_sign(rres) == +1 and any(norm(f_) != dxp and _broadcast_view_of(f_, dxp) for f_ in fs) and \
             any(norm(f_) != "self.cRvec_shifted" and _broadcast_view_of(f_, "self.cRvec_shifted") for f_ in fs) and len(fs) == 3
-    r4.check(okd, "∂/∂k ↦ multiplication by +i (R + τj − τi)", dv, rets[0] if rets else dv.node,
-             "the k-derivative is no longer multiplication of X(R) by +i·(R + τj − τi) (the sign must match exp(+ik·R))", stmt="derivative")
+    is_product = len(rets) == 1 and isinstance(rres, ast.BinOp) and isinstance(rres.op, ast.Mult) if len(rets) == 1 else False
+    if is_product or okd:
+        r4.check(okd, "∂/∂k ↦ multiplication by +i (R + τj − τi)", dv, rets[0] if rets else dv.node,
+                 "the k-derivative is no longer multiplication of X(R) by +i·(R + τj − τi) (the sign must match exp(+ik·R))", stmt="derivative")
+    else:
+        r4.expect(False, "", dv, dv.node, "Rvectors.derivative: the result is not a single product expression (filled in place / block by block): the factor "
+                  "i·(R + τj − τi) cannot be read off")
+    # block-wise processing anywhere in the transform classes must visit the whole axis
+    from .chunks import decide_block_loop
+    for m_ in list(rvc.methods.values()) + list(cls.methods.values()):
+        loops_ = [x for x in ast.walk(m_.node) if isinstance(x, ast.For)]
+        if not loops_:
+            continue
+        MS_ = Sem(idx, m_)
+        for lp_ in loops_:
+            res_ = decide_block_loop(MS_, lp_)
+            if res_ is None:
+                continue
+            v_, why_, desc_ = res_
+            r4.instance(f"{m_.short}: block loop {desc_}")
+            if v_ is None:
+                r4.expect(False, "", m_, lp_, f"{m_.qualname}: block loop `{desc_}`: the number of blocks is not in a form that can be decided")
+            else:
+                r4.check(v_, f"{m_.name}: the blocks cover the whole axis", m_, lp_, f"{m_.qualname}: {why_}: those entries of X(R) are transformed without "
+                         f"the factor the other entries get, so the result depends on where an orbital sits in the list")
     r4.instance(rk.short)
     K = Frag(rk)
     xr, derp, hp2 = rk.params[1:4]
@@ -460,6 +523,7 @@ def run(ctx) -> None:
     if cpy is not None:
         CS_ = Sem(idx, cpy)
         for v_, _cs, st2 in return_cases_c02(CS_):
+            v_ = CS_.resolve(v_, CS_.cfg.node(st2)) if isinstance(v_, ast.Name) else v_
             okcp = isinstance(v_, ast.Call) and call_name(v_) in ("Rvectors", "self.__class__", "type(self)", "copy.deepcopy", "deepcopy")
     r7.check(okcp, "Rvectors.copy() builds a new object", cpy or RV, cpy.node if cpy else rvc.node,
              "Rvectors.copy() no longer constructs a new Rvectors object", stmt="Rvectors.copy")
